@@ -87,7 +87,7 @@ class Projector:
             "rc": p.get("retry_count") or 0,
             "target": p.get("target_stage_ref_id") or "",
             "phase": (p.get("phase") or "").replace("STAGE_", ""),
-            "sig": p.get("signal_name") or "",
+            "sig": p.get("signal_name") or p.get("region") or "",
             "pers": bool(p.get("persistent")) if r["message_type"] == "SignalStage" else False,
             "att": r["attempts"],
             "lock": lock,
